@@ -43,6 +43,7 @@ RULE = (
     "and the observed output is not all zero; distinct = distinct (api, flatten, hw, stride, sigma, instances, edge list)"
 )
 ASSUMPTIONS = [
+    "history part: all ordered pairs (thorough: triples) of 16 generate_pafs calls whose grids collide in shape but not in coordinates, each history in a forked child, compared with a fresh-process result (module-level caches / scratch buffers keyed too coarsely)",
     "coordinates only from the alphabet {NaN,-4,0,1,2.5,3,N-2,N-1,N+3} per axis (dyadic, so 'cell lies on the segment' is decided exactly); no +-inf coordinates",
     "animals <= 2 (quick) / <= 3 (thorough), nodes <= 3, edge lists = oriented/ordered spanning trees of the node set (1 or 2 edges)",
     "image sizes (H,W): quick (8,12); thorough (8,8),(8,12),(12,8) and for family A also (12,12) -- all multiples of the strides {1,2,4}; sigma in {0.5,1.5,4}; n_samples = 1 (generate_pafs reads instances[0] only)",
@@ -616,8 +617,33 @@ def items_for(tier):
     return items, Q, a2, a3
 
 
+def history_calls():
+    """Call alphabet of the history search: configurations whose grids collide in SHAPE but not in coordinates."""
+    out = []
+    for (hw, stride) in [((8, 12), 1), ((16, 24), 2), ((32, 48), 4), ((8, 12), 2), ((4, 6), 1), ((16, 24), 4), ((12, 8), 1), ((24, 16), 2)]:
+        for sigma in (1.5, 4.0):
+            f = hw[1] / 12.0
+            inst = [[[2.5 * f, 1.5 * f], [8.5 * f, 5.25 * f], [4.0 * f, 6.0 * f]], [[10.0 * f, 1.0 * f], [6.5 * f, 2.0 * f], [float("nan"), float("nan")]]]
+            out.append((f"generate_pafs(hw={hw},stride={stride},sigma={sigma})", {"inst": inst, "hw": hw, "stride": stride, "sigma": sigma}))
+    return out
+
+
+def history_run(entry):
+    import torch
+
+    from sleap_nn.data.edge_maps import generate_pafs
+
+    c = entry[1]
+    return generate_pafs(torch.tensor([c["inst"]], dtype=torch.float32), img_hw=tuple(c["hw"]), sigma=c["sigma"], output_stride=c["stride"], edge_inds=torch.Tensor([[0, 1], [1, 2]]), flatten_channels=True)
+
+
 def run(ctx):
     core.setup_torch()
+    # E2 part first (the parent must not have called the functions yet): every ordered pair / triple of calls whose
+    # sampling grids have the same shape but different coordinates, in forked children, against fresh-process references
+    from mc import history
+
+    history.search(ctx, history_calls(), history_run, depth=2 if ctx.tier == "quick" else 3)
     items, Q, a2, a3 = items_for(ctx.tier)
     # R3: the first execution is replayed twice and must give identical observations
     first = make_case(((P_11, P_31),), 2, [[0, 1]], (8, 12), 2, 1.5, True, "fn")
@@ -651,6 +677,10 @@ def run(ctx):
 
 def replay(case):
     core.setup_torch()
+    if case.get("kind") == "history":
+        from mc import history
+
+        return history.replay(case, history_calls(), history_run)
     case = dict(case)
     focus = case.pop("focus", None)
     fails, nontrivial, okey, calls = run_case(case)
